@@ -58,6 +58,15 @@ check("C15",
       "Coq proof (induction + vm_compute over the complete pixel map) + extracted-model correspondence vs Python and Rust",
       "DESIGN.md 5 C15")
 
+check("C14",
+      "Coq theorems over an executable model of both keyboard matrices (per-key debounce/repeat step of each implementation, scan over all keys, KIL computation, press/release/inject entry points, register-facing reads, drop-oldest queue, KEYI gate): "
+      "KIL shows a row bit iff a debounced (or, on register reads, about-to-debounce held) key of that row is on a strobed column - for every state; a key held on a strobed column is debounced after press_threshold ticks and stays so (induction on ticks, both implementations); "
+      "after release it disappears within release_threshold ticks; every scan event is consistent with the debounced flag and, for the Python entry points, any history of a key yields (Press Repeat* Release)*; "
+      "the queue equals the newest cap entries offered (bounded, drops only the oldest) for histories of any length and every reachable state; KEYI is raised only when latched, pending and enabled. Key scan order, capacities and defaults are regenerated from the sources each run.",
+      "Trusted: Coq kernel, translator tr_kbd.py, extraction, harness drivers. Modelled not verified: keyboard_matrix.py, keyboard_handler.py register layer, keyboard.rs. The ring buffers are modelled as the list fifo_snapshot returns. Known findings: Rust release emits no event; Rust re-press resets debounce.",
+      "Coq proof (induction over ticks / op lists) + extracted-model correspondence vs Python and Rust",
+      "DESIGN.md 5 C14")
+
 NOT_APPLICABLE = {}
 
 def build():
